@@ -409,6 +409,54 @@ int main(int argc, char** argv) {
       }
     }
   }
+  // =========================================================================================== DST table rows
+  // GeodesicExact chooses the number of DST terms of the area integral from a table narr[] indexed by the third flattening n in steps
+  // of 0.01 (row j = 100 + ceil(100 n) for n > 0, 100 + floor(100 n) for n < 0, 100 for n = 0).  TABLE-ROW COVERAGE: one ellipsoid at the
+  // middle of every row the ODE oracle reaches (|n| <= 0.94, i.e. 1/32 < b/a < 32), generic geodesics (neither meridional nor equatorial),
+  // S12 of direct / line / inverse judged against the area oracle with the S12 bound used everywhere else in this check.
+  ctx.sub("dst-rows");
+  ctx.bound("dst-rows.rows", "n = 0 and n = +-(k - 0.5)/100 for k = 1..94 (189 of the 201 rows of narr[]; quarter meridian 1e7 m), both tiers");
+  ctx.bound("dst-rows.geodesics", T ? "(lat1, azi1, s12/Q) in {(20,5,0.7), (-35,40,1.3), (50,100,0.5), (-10,170,1.6), (-60,2,1.9), (5,-75,1.0)} x {exact, exact=true, series if |f|<=0.2} x {GenDirect, Line+GenPosition, Inverse of the end point}"
+                                       : "(lat1, azi1, s12/Q) in {(20,5,0.7), (-35,40,1.3)} x {exact, exact=true, series if |f|<=0.2} x {GenDirect, Line+GenPosition, Inverse of the end point}");
+  for (int k = 95; k <= 100; ++k) { ctx.list("dst-rows.not_covered", "n in (" + fmt((k - 1) / 100.0) + "," + fmt(k / 100.0) + "] and its negative: b/a beyond the reach of the ODE oracle"); }
+  {
+    struct G { double lat1, azi1, sq; };
+    const std::vector<G> gs = T ? std::vector<G>{{20, 5, 0.7}, {-35, 40, 1.3}, {50, 100, 0.5}, {-10, 170, 1.6}, {-60, 2, 1.9}, {5, -75, 1.0}} : std::vector<G>{{20, 5, 0.7}, {-35, 40, 1.3}};
+    for (int row = -94; row <= 94; ++row) {
+      if (!ctx.take()) continue;
+      const double n = row == 0 ? 0.0 : (row > 0 ? (row - 0.5) / 100 : (row + 0.5) / 100), f = 2 * n / (1 + n);
+      geodtab::Ell E; { char nm[64]; snprintf(nm, sizeof nm, "n=%.3f", n); E.name = nm; }
+      { geod_ode::Ellipsoid<ld> e1(1.0, f); E.a = (double)(1e7L / e1.quarter_meridian()); }
+      E.f = f; E.quick = true; E.series = std::fabs(f) <= 0.2; E.e = geod_ode::Ellipsoid<ld>(E.a, f); E.Q = E.e.quarter_meridian();
+      Solvers S; S.make(E);
+      for (size_t gi = 0; gi < gs.size(); ++gi) {
+        const double lat1 = gs[gi].lat1, azi1 = gs[gi].azi1, s12 = gs[gi].sq * (double)E.Q, lon1g = 33.25;
+        Point<ld> p = geod_ode::follow<ld>(E.e, lat1, azi1, (ld)s12, true); ++ntraj;
+        const ld a12deg = geod_ode::dist_to_arc<ld>(E.e, p) / D;
+        const ld sc = std::max<ld>(std::max<ld>(1, fabsl((ld)s12) / (2 * E.Q)), fabsl(a12deg) / 180);
+        for (int sv = 0; sv < 3; ++sv) {
+          if (sv == 0 && !E.series) continue;
+          const ld tS = tolS12(E, sv, sc, hypotl(p.r[0], p.r[1])); const char* svn = svname(sv);
+          for (int form = 0; form < 3; ++form) {
+            Ctx::Case cs(ctx);
+            double Sl; bool conv = false; ld eS;
+            if (form < 2) { DOut o = S.d(sv, form, false, lat1, lon1g, azi1, s12); ++ncalls; Sl = o.S12; eS = area_err(E, p, azi1, (double)((ld)o.lon2 - (ld)lon1g), o.S12, conv, fabs(o.lat2) == 90); }
+            else {
+              // inverse between the start and the library's own end point; compared with the oracle along the returned geodesic
+              DOut o = S.d(sv, 0, false, lat1, lon1g, azi1, s12); IOut R = S.i(sv, 0, lat1, lon1g, o.lat2, o.lon2); ncalls += 2; Sl = R.S12;
+              if (R.a12 > 179) { ctx.count("dst-rows.inverse_skipped_not_the_same_geodesic"); continue; }
+              Point<ld> q = geod_ode::follow<ld>(E.e, lat1, R.azi1, (ld)R.s12, true); ++ntraj;
+              eS = area_err(E, q, R.azi1, (double)((ld)o.lon2 - (ld)lon1g), R.S12, conv, fabs(o.lat2) == 90);
+            }
+            auto where = [&] { return E.name + " f=" + fx(f) + " a=" + fx(E.a) + " lat1=" + fmt(lat1) + " azi1=" + fmt(azi1) + " s12=" + fx(s12) + " " + svn + " form=" + std::to_string(form); };
+            ctx.worstf(std::string("dst-rows.S12.err_over_tol.") + svn, (double)(eS / tS), where);
+            if (!(eS <= tS)) ctx.fail("row" + std::to_string(row) + "/g" + std::to_string(gi) + "/" + svn + "/f" + std::to_string(form), where() + ": S12 " + fx(Sl) + " true " + fmtl(p.S12) + " (difference " + fmtl(eS) + " m^2, tol " + fmtl(tS) + ")",
+                                     {{"kind", "S12-row"}, {"ell", E.name}, {"solver", svn}, {"form", std::to_string(form)}});
+          }
+        }
+      }
+    }
+  }
   ctx.count("calls", ncalls); ctx.count("oracle_trajectories", ntraj);
   return ctx.finish();
 }
